@@ -1335,3 +1335,12 @@ theorem zip_zip_map_self {α β : Type} (f : α → β) (l : List α) :
   | cons a l ih => simp [ih]
 
 end QM.C08
+
+namespace QM.C08
+variable {K : Type}
+
+/-- `raw` probabilities of the ensemble after `eps_zero` clipping, as in `circuitPovmMprocessStateEps` -/
+def rawProbs [Field K] [LinearOrder K] (r epsZero : K) (hss : List (List (List K))) (rho : List K) : List K :=
+  (hss.map fun hs => matVec hs rho).map fun mrho => (let p := r * firstEntry mrho; if p ≤ epsZero then 0 else p)
+
+end QM.C08
